@@ -127,11 +127,27 @@ func runC01(e *Env) {
 			reqs[i] = "C01\teval\t" + Sexp(it.p)
 			creqs[i] = "C01\tcompile\t" + Sexp(it.p) + "\t" + c01Globals
 		}
+		vreqs := make([]string, len(batch))
+		for i, it := range batch {
+			vreqs[i] = "C01\tvmrun\t" + Sexp(it.p) + "\t" + c01Globals
+		}
 		reps := e.O.AskBatch(reqs)
 		creps := e.O.AskBatch(creqs)
+		vreps := e.O.AskBatch(vreqs)
 		for i, it := range batch {
 			c01Compare(e, it.p, it.src, it.go_, reps[i])
 			c01CompareCode(e, it.p, it.src, creps[i])
+			// the Lean VM model on the Lean-compiled bytecode against the real run
+			vf := strings.Split(vreps[i], "\t")
+			switch {
+			case vf[0] == "unsupported" || vf[0] == "oof":
+				e.R.H("vm_model", vf[0])
+			case vreps[i] == it.go_:
+				e.R.H("vm_model", "agrees")
+			default:
+				e.R.H("vm_model", "differs")
+				e.R.Mismatch(it.src, strings.ReplaceAll(it.go_, "\t", " "), strings.ReplaceAll(vreps[i], "\t", " "), "vm.Run vs C01.runCodes (Lean VM model on the modelled bytecode)")
+			}
 		}
 		batch = batch[:0]
 	}
